@@ -97,8 +97,9 @@ type BitAnalyzer struct {
 	// Ctx (from dominating comparisons) bounds its significant bits.
 	IA  *IntervalAnalyzer
 	Ctx *ssa.BasicBlock
-	// Opaque lets a rule name calls that should be treated as sources of their
-	// own (default: every call is an opaque source named by its path).
+	// Keep names callees that stay opaque sources of their own (never summarised
+	// through their body): a rule that wants to see "MULalpha(x)" as one term.
+	Keep map[string]bool
 }
 
 func NewBitAnalyzer(fn *ssa.Function) *BitAnalyzer {
@@ -373,7 +374,7 @@ func (a *BitAnalyzer) bits(v ssa.Value, w int) BitVec {
 // callee's parameters replaced by the caller's arguments.
 func (a *BitAnalyzer) inlineCall(call *ssa.Call, w int) BitVec {
 	callee := call.Call.StaticCallee()
-	if callee == nil || len(callee.Blocks) != 1 || a.depth >= 3 {
+	if callee == nil || len(callee.Blocks) != 1 || a.depth >= 3 || a.Keep[callee.Name()] {
 		return nil
 	}
 	var ret ssa.Value
@@ -393,6 +394,7 @@ func (a *BitAnalyzer) inlineCall(call *ssa.Call, w int) BitVec {
 	}
 	sub := NewBitAnalyzer(callee)
 	sub.depth = a.depth + 1
+	sub.Keep = a.Keep
 	// constant arguments are bound to the callee's parameters, so masks and shift counts
 	// that depend on them fold (SetBitField(octet, 4, 2, v): the mask and the shift are constants)
 	for pi, prm := range callee.Params {
@@ -405,44 +407,65 @@ func (a *BitAnalyzer) inlineCall(call *ssa.Call, w int) BitVec {
 			}
 		}
 	}
+	// non-constant parameters are rendered as markers; after the analysis of the callee
+	// a marker that stands alone is replaced by the bits of the argument, a marker inside
+	// a longer path (an index expression, a field of a pointer argument) by the argument's path
+	names := make([]string, len(callee.Params))
+	argOf := map[string]ssa.Value{}
+	for pi := range callee.Params {
+		names[pi] = fmt.Sprintf("p%d", pi)
+		if pi < len(call.Call.Args) {
+			if _, bound := sub.P.Bind[callee.Params[pi]]; !bound {
+				names[pi] = fmt.Sprintf("@a%d_%d@", sub.depth, pi)
+				argOf[names[pi]] = call.Call.Args[pi]
+			}
+		}
+	}
+	sub.P.ParamNames = names
 	rb := sub.Bits(ret)
 	if rb == nil || len(rb) != w {
 		return nil
 	}
+	argBits := map[string]BitVec{}
+	rename := func(src string) string {
+		for m, arg := range argOf {
+			if strings.Contains(src, m) {
+				src = strings.ReplaceAll(src, m, a.P.Path(arg))
+			}
+		}
+		return src
+	}
 	out := make(BitVec, w)
 	for i, b := range rb {
-		if b.Kind == BSrc {
-			mapped := false
-			for pi := range callee.Params {
-				pre := fmt.Sprintf("p%d", pi)
-				if b.Src == pre || strings.HasPrefix(b.Src, pre+".") || strings.HasPrefix(b.Src, pre+"[") {
-					if pi < len(call.Call.Args) {
-						// an integer parameter maps to the bits of the argument itself
-						if b.Src == pre {
-							ab := a.Bits(call.Call.Args[pi])
-							if ab != nil && b.Idx < len(ab) {
-								nb := ab[b.Idx]
-								if b.Neg {
-									nb = notBit(nb)
-								}
-								out[i] = nb
-								mapped = true
-								break
-							}
-						}
-						b.Src = a.P.Path(call.Call.Args[pi]) + b.Src[len(pre):]
-						out[i] = b
-						mapped = true
-					}
-					break
-				}
-			}
-			if !mapped {
-				return nil
-			}
+		if b.Kind != BSrc {
+			out[i] = b
 			continue
 		}
-		out[i] = b
+		acc := Bit{Kind: BZero}
+		for _, t := range b.terms() {
+			k := strings.LastIndexByte(t, '.')
+			src, idx := t[:k], 0
+			fmt.Sscanf(t[k+1:], "%d", &idx)
+			var tb Bit
+			if arg, isArg := argOf[src]; isArg {
+				ab, seen := argBits[src]
+				if !seen {
+					ab = a.Bits(arg)
+					argBits[src] = ab
+				}
+				if ab == nil || idx >= len(ab) {
+					return nil
+				}
+				tb = ab[idx]
+			} else {
+				tb = Bit{Kind: BSrc, Src: rename(src), Idx: idx}
+			}
+			acc = xorBit(acc, tb)
+		}
+		if b.Neg {
+			acc = notBit(acc)
+		}
+		out[i] = acc
 	}
 	return out
 }
@@ -506,6 +529,9 @@ func orBit(a, b Bit) Bit {
 	return Bit{Kind: BMix}
 }
 
+// MaxXorTerms bounds the number of terms of one bit; beyond it the bit is Mix.
+var MaxXorTerms = 24
+
 func xorBit(a, b Bit) Bit {
 	if a.Kind == BZero {
 		return b
@@ -534,7 +560,7 @@ func xorBit(a, b Bit) Bit {
 				ts = append(ts, t)
 			}
 		}
-		if len(ts) > 24 {
+		if len(ts) > MaxXorTerms {
 			return Bit{Kind: BMix}
 		}
 		return fromTerms(ts, a.Neg != b.Neg)
